@@ -1,10 +1,10 @@
 //! RIPscrip side of C20: command table (doc/ripscript/154/ripscript.txt, levels 0, 1 and 9), stream model, renderer,
 //! executor, enumeration and random strategy.
-use crate::common::{drive, Fail, Known, Reporter, Run, SegInfo, Stopwatch, IDX_PICTURE, IDX_SETUP};
+use crate::common::{drive, grid_text, push_ascii, Fail, Known, Reporter, Run, SegInfo, Stopwatch, Text, ALPHABETS, IDX_PICTURE, IDX_SETUP, MAX_PAUSE_MS, TEXT_LENGTHS};
 use icy_engine::{ansi, rip, BufferParser, CallbackAction};
 use icyv::proptest::collection::vec;
 use icyv::proptest::prelude::*;
-use icyv::util::{pick, Bytes};
+use icyv::util::pick;
 use icyv::{panics, stream, Verdict};
 use serde::{Deserialize, Serialize};
 use std::path::PathBuf;
@@ -98,7 +98,7 @@ pub struct RipSeg {
     pub lvl: u8,
     pub cmd: u8,
     /// the parameter characters exactly as sent
-    pub params: Bytes,
+    pub params: Text,
     /// 0: the next command follows after `|` on the same line; 1: line ends with LF; 2: with CR LF
     pub term: u8,
     /// a continuation (backslash CR LF) is inserted before parameter character `cont` (255 = none)
@@ -138,41 +138,41 @@ pub fn family(s: &RipSeg) -> String {
     }
 }
 
-pub fn render_seg(s: &RipSeg, in_cmd: &mut bool, out: &mut Vec<u8>) {
+pub fn render_seg(s: &RipSeg, in_cmd: &mut bool, out: &mut Vec<char>) {
     if s.lvl == 255 {
         if *in_cmd {
-            out.push(b'\n');
+            out.push('\n');
         }
         out.extend_from_slice(&s.params);
         *in_cmd = false;
         return;
     }
     if !*in_cmd {
-        out.extend_from_slice(b"!|");
+        push_ascii(out, b"!|");
     }
     match s.lvl {
-        1 => out.push(b'1'),
-        9 => out.push(b'9'),
+        1 => out.push('1'),
+        9 => out.push('9'),
         _ => {}
     }
-    out.push(s.cmd);
+    out.push(s.cmd as char);
     for (i, b) in s.params.iter().enumerate() {
         if i == s.cont as usize {
-            out.extend_from_slice(b"\\\r\n");
+            push_ascii(out, b"\\\r\n");
         }
         out.push(*b);
     }
     match s.term {
         0 => {
-            out.push(b'|');
+            out.push('|');
             *in_cmd = true;
         }
         1 => {
-            out.push(b'\n');
+            out.push('\n');
             *in_cmd = false;
         }
         _ => {
-            out.extend_from_slice(b"\r\n");
+            push_ascii(out, b"\r\n");
             *in_cmd = false;
         }
     }
@@ -245,7 +245,8 @@ fn run(prefix: u8, segs: &[RipSeg], alive: &[usize], rep: &Reporter) -> Run {
             let sw = Stopwatch::start();
             for b in &bytes {
                 // every character yields an action or an error
-                match parser.print_char(&mut buf, 0, &mut caret, *b as char) {
+                match parser.print_char(&mut buf, 0, &mut caret, *b) {
+                    Ok(CallbackAction::Pause(ms)) if ms > MAX_PAUSE_MS => pause_fail(&mut out, i, &segs[i], ms),
                     Ok(_) => {}
                     Err(_) => out.errs += 1,
                 }
@@ -293,6 +294,10 @@ pub fn warm_up() {
     });
 }
 
+fn pause_fail(out: &mut Run, i: usize, seg: &RipSeg, ms: u32) {
+    out.fails.push((i, Fail { key: format!("stall.pause|{}", family(seg)), msg: format!("segment {i} asks the terminal to pause for {ms} ms (more than {MAX_PAUSE_MS} ms)") }));
+}
+
 pub fn check(c: &RipCase, known: &Known) -> Verdict {
     crate::common::warm_up_once();
     let fam_of = |i: u16| match i {
@@ -320,6 +325,8 @@ pub fn check(c: &RipCase, known: &Known) -> Verdict {
 // exhaustive part: every command x {fresh, preamble} x parameter strings over {0,1,Z}
 
 const DIGITS: [u8; 3] = [b'0', b'1', b'Z'];
+/// the property quantifies over 0..=40 parameter characters (RIP_BUTTON_STYLE has 36, the engine reads 37)
+pub const MAX_PARAM_LEN: usize = 40;
 const PATTERNS: [&[u8]; 9] = [b"0", b"1", b"Z", b"0Z", b"Z0", b"1Z", b"Z1", b"01", b"10"];
 const FIELDS: [&[u8]; 3] = [b"00", b"0Z", b"ZZ"];
 
@@ -330,7 +337,7 @@ pub struct Table {
 }
 
 impl Table {
-    /// all strings over {0,1,Z} of length 0..=full_len (quick 6, thorough 8); for every longer length up to 24 the 9
+    /// all strings over {0,1,Z} of length 0..=full_len (quick 6, thorough 8); for every longer length up to 40 the 9
     /// periodic patterns; for the even lengths after full_len up to 10 (quick) / 12 (thorough) all strings of two-digit fields over {00, 0Z, ZZ}
     pub fn new(thorough: bool) -> Table {
         let full_len = if thorough { 8 } else { 6 };
@@ -345,7 +352,7 @@ impl Table {
                 strings.push(s);
             }
         }
-        for l in full_len + 1..=24 {
+        for l in full_len + 1..=MAX_PARAM_LEN {
             for pat in PATTERNS {
                 strings.push((0..l).map(|k| pat[k % pat.len()]).collect());
             }
@@ -378,7 +385,7 @@ impl Table {
         let rest = i / ns;
         let prefix = (rest % 2) as u8;
         let def = &RIP_CMDS[(rest / 2) as usize];
-        RipCase { prefix, segs: vec![RipSeg { lvl: def.lvl, cmd: def.cmd, params: Bytes(s), term: 0, cont: 255 }] }
+        RipCase { prefix, segs: vec![RipSeg { lvl: def.lvl, cmd: def.cmd, params: Text::latin1(s), term: 0, cont: 255 }] }
     }
 }
 
@@ -392,7 +399,7 @@ fn mk(lvl: u8, cmd: u8, fields: &[(usize, u32)], text: &[u8]) -> RipSeg {
         p.extend(b36(*w, *v));
     }
     p.extend_from_slice(text);
-    RipSeg { lvl, cmd, params: Bytes(p), term: 1, cont: 255 }
+    RipSeg { lvl, cmd, params: Text::latin1(p), term: 1, cont: 255 }
 }
 
 pub struct Pairs {
@@ -486,6 +493,54 @@ impl Pairs {
 }
 
 // ---------------------------------------------------------------------------------------------------------
+// text part: every command that takes a text x {bitmap font, stroked font (preamble)} x text grid
+// (lengths around the 128 / 256 character marks x alphabets x {no lead, one ASCII character in front})
+
+pub struct Texts {
+    cmds: Vec<&'static RipDef>,
+}
+
+impl Texts {
+    pub fn new() -> Texts {
+        Texts { cmds: RIP_CMDS.iter().filter(|d| d.text).collect() }
+    }
+    pub fn total(&self) -> u64 {
+        (self.cmds.len() * 2 * TEXT_LENGTHS.len() * 5 * 2) as u64
+    }
+    pub fn case(&self, mut i: u64) -> RipCase {
+        let lead = i % 2 == 1;
+        i /= 2;
+        let a = (i % 5) as usize;
+        i /= 5;
+        let len = TEXT_LENGTHS[(i % TEXT_LENGTHS.len() as u64) as usize];
+        i /= TEXT_LENGTHS.len() as u64;
+        let prefix = (i % 2) as u8;
+        let def = self.cmds[(i / 2) as usize];
+        // ordinary in-canvas numbers in front of the text
+        let mut params: Vec<char> = Vec::new();
+        for (k, w) in def.fields.iter().enumerate() {
+            let v = match (def.lvl, def.cmd, k) {
+                (1, b'U', 2) => 100,
+                (1, b'U', 3) => 60,
+                (1, b'U', 4) => 120, // hot key 'x'
+                (1, b'M', 3) | (1, b'M', 4) => 50,
+                (_, _, _) if *w >= 2 => 20,
+                _ => 0,
+            };
+            params.extend(b36(*w as usize, v).iter().map(|b| *b as char));
+        }
+        if def.lvl == 1 && def.cmd == b'U' {
+            params.extend("<>".chars());
+        }
+        params.extend(grid_text(len, alphabet(a), lead));
+        if def.lvl == 0 && def.cmd == b'$' {
+            params.push('$');
+        }
+        RipCase { prefix, segs: vec![RipSeg { lvl: def.lvl, cmd: def.cmd, params: Text(params), term: 1, cont: 255 }] }
+    }
+}
+
+// ---------------------------------------------------------------------------------------------------------
 // random part
 
 const JUNK: &[u8] = b" -.,;:$^<>~*#@_/()[]{}\\\x1b\x00\x7f\xe4\xff?+=&%\"'";
@@ -509,26 +564,44 @@ fn field_value(class: u8, raw: u32, width: u8) -> u32 {
     v % (max + 1)
 }
 
-fn text_tokens() -> BoxedStrategy<Vec<u8>> {
+/// the characters RIP itself gives a meaning inside a text: escape / continuation, the escaped terminator, variable and
+/// host-command markers, the field separator of button texts
+pub const RIP_SPECIAL: &[char] = &['^', 'M', '<', '>', '$', '!', '\\', '|', '@', '[', '\\', '\\'];
+
+fn alphabet(i: usize) -> &'static [char] {
+    if i < ALPHABETS.len() {
+        ALPHABETS[i]
+    } else {
+        RIP_SPECIAL
+    }
+}
+
+fn text_tokens() -> BoxedStrategy<Vec<char>> {
+    let t = |s: &str| Just(s.chars().collect::<Vec<char>>());
     let tok = prop_oneof![
-        4 => Just(b"Ab".to_vec()),
-        2 => Just(b" x".to_vec()),
-        3 => Just(b"<>".to_vec()),
-        1 => Just(b"^M".to_vec()),
-        1 => Just(b"^[".to_vec()),
-        1 => Just(b"$DATE$".to_vec()),
-        1 => Just(b"$".to_vec()),
-        1 => Just(b".ICN".to_vec()),
-        1 => Just(b"\\".to_vec()),
-        1 => Just(b"!".to_vec()),
-        1 => Just(b"@".to_vec()),
-        1 => Just(vec![0xE4]),
-        1 => Just(vec![0xFF]),
-        1 => Just(vec![0x00]),
-        1 => Just(vec![0x1B, b'[', b'1', b'm']),
-        2 => (0x20u8..=0x7E).prop_filter("not a terminator", |b| *b != b'|').prop_map(|b| vec![b]),
+        4 => t("Ab"),
+        2 => t(" x"),
+        3 => t("<>"),
+        1 => t("^M"),
+        1 => t("^["),
+        1 => t("$DATE$"),
+        1 => t("$"),
+        1 => t(".ICN"),
+        1 => t("\\"),
+        1 => t("!"),
+        1 => t("@"),
+        1 => t("\u{e4}"),
+        1 => t("\u{ff}"),
+        1 => t("\u{0}"),
+        1 => t("\u{20ac}"),
+        1 => t("\u{2588}"),
+        1 => t("\u{1b}[1m"),
+        2 => (0x20u8..=0x7E).prop_filter("not a terminator", |b| *b != b'|').prop_map(|b| vec![b as char]),
     ];
-    vec(tok, 0..=6).prop_map(|v| v.concat()).boxed()
+    let short = vec(tok, 0..=6).prop_map(|v| v.concat());
+    // long texts: around the 128 and 256 character marks, rarely 1000; one alphabet, optionally one ASCII character in front
+    let long = (prop_oneof![6 => 120usize..=135, 3 => 250usize..=262, 1 => Just(1000usize)], 0usize..5, any::<bool>()).prop_map(|(len, a, lead)| grid_text(len, alphabet(a), lead));
+    prop_oneof![9 => short, 1 => long].boxed()
 }
 
 pub fn seg_strategy() -> BoxedStrategy<RipSeg> {
@@ -544,7 +617,7 @@ pub fn seg_strategy() -> BoxedStrategy<RipSeg> {
         .prop_map(|((sel, ci, unk), vals, (mkind, mpos, mjunk), text, term, cont, npoints)| {
             if sel < 4 {
                 // plain text / ANSI between the commands
-                return RipSeg { lvl: 255, cmd: 0, params: Bytes(text), term: 1, cont: 255 };
+                return RipSeg { lvl: 255, cmd: 0, params: Text(text), term: 1, cont: 255 };
             }
             if sel < 8 {
                 // unknown command letter on one of the levels
@@ -554,7 +627,7 @@ pub fn seg_strategy() -> BoxedStrategy<RipSeg> {
                 for (k, (c, r)) in vals.iter().take(3).enumerate() {
                     params.extend(b36(2, field_value(*c, *r ^ k as u32, 2)));
                 }
-                return RipSeg { lvl, cmd, params: Bytes(params), term, cont: 255 };
+                return RipSeg { lvl, cmd, params: Text::latin1(params), term, cont: 255 };
             }
             let def = &RIP_CMDS[pick(ci, RIP_CMDS.len())];
             let mut params: Vec<u8> = Vec::new();
@@ -574,13 +647,7 @@ pub fn seg_strategy() -> BoxedStrategy<RipSeg> {
                     params.extend(next(*w));
                 }
             }
-            if def.text {
-                params.extend_from_slice(&text);
-                if def.cmd == b'$' && def.lvl == 0 {
-                    params.push(b'$');
-                }
-            }
-            // mutations: truncated, over-long, punctuation, lower case
+            // mutations of the numeric part: truncated, over-long, punctuation, lower case
             let len = params.len();
             match mkind {
                 8 => params.truncate(mpos as usize % (len + 1)),
@@ -602,8 +669,15 @@ pub fn seg_strategy() -> BoxedStrategy<RipSeg> {
                 }
                 _ => {}
             }
-            params.retain(|b| *b != b'|' && *b != b'\n' && *b != b'\r');
-            RipSeg { lvl: def.lvl, cmd: def.cmd, params: Bytes(params), term, cont }
+            let mut params: Vec<char> = params.iter().map(|b| *b as char).collect();
+            if def.text {
+                params.extend_from_slice(&text);
+                if def.cmd == b'$' && def.lvl == 0 {
+                    params.push('$');
+                }
+            }
+            params.retain(|b| !matches!(*b, '|' | '\n' | '\r'));
+            RipSeg { lvl: def.lvl, cmd: def.cmd, params: Text(params), term, cont }
         })
         .boxed()
 }
@@ -647,8 +721,8 @@ pub fn minimize(c: &RipCase) -> Vec<RipCase> {
             }
         }
         for k in 0..n.min(48) {
-            if s.params[k] != b'0' {
-                out.push(with(&|s| s.params.0[k] = b'0'));
+            if s.params[k] != '0' {
+                out.push(with(&|s| s.params.0[k] = '0'));
             }
         }
     }
